@@ -1,6 +1,7 @@
 """C16 - stream framing is independent of chunking (explicit-state exploration of the real framers)."""
 import itertools
 import math
+import os
 
 from engine import loader, xstate
 from engine.runner import Acc
@@ -61,6 +62,53 @@ for _df in range(32):
     # one long ('3') and one short ('2') Beast frame per downlink format (admission depends on DF vs length)
     BEAST_ALPHA["L%02d" % _df] = B.beast_frame(0x33, TS, 0x55, bytes([(_df << 3) | 5]) + LONG[1:])
     BEAST_ALPHA["S%02d" % _df] = B.beast_frame(0x32, TS, 0x55, bytes([(_df << 3) | 5]) + SHORT[1:])
+
+
+def source_literals():
+    """byte strings that occur as literals in the framer / source modules under test (lists or tuples of small ints,
+    bytes and short str constants): the dictionary a fuzzer would extract.  A framer that treats a particular timestamp,
+    signal level or payload prefix specially has to name it somewhere; frames carrying each such word in each field are
+    added to the alphabets (values that appear nowhere in the source cannot be special)."""
+    import ast
+    words = []
+    for rel in ("pyModeS/extra/tcpclient.py", "pyModeS/streamer/source.py"):
+        try:
+            tree = ast.parse(open(os.path.join(loader.SRC, rel)).read())
+        except (OSError, SyntaxError):
+            continue
+        for node in ast.walk(tree):
+            w = None
+            if isinstance(node, (ast.List, ast.Tuple)) and len(node.elts) >= 2 and all(
+                    isinstance(e, ast.Constant) and isinstance(e.value, int) and not isinstance(e.value, bool) and 0 <= e.value <= 255 for e in node.elts):
+                w = bytes(e.value for e in node.elts)
+            elif isinstance(node, ast.Constant) and isinstance(node.value, bytes) and 2 <= len(node.value) <= 14:
+                w = node.value
+            elif isinstance(node, ast.Constant) and isinstance(node.value, str) and 2 <= len(node.value) <= 8:
+                try:
+                    w = node.value.encode("latin-1")
+                except UnicodeEncodeError:
+                    w = None
+                if w is not None and all(c in "0123456789abcdefABCDEF" for c in node.value) and len(node.value) % 2 == 0:
+                    words.append(bytes.fromhex(node.value))
+            elif isinstance(node, ast.Constant) and isinstance(node.value, int) and not isinstance(node.value, bool) and node.value > 0xFFFF:
+                v = node.value
+                w = v.to_bytes((v.bit_length() + 7) // 8, "big")
+            if w:
+                words.append(w)
+    return list(dict.fromkeys(words))[:40]
+
+
+def _fit(word, n, pad):
+    """word placed at the start / at the end of an n-byte field (padded with `pad` bytes)."""
+    w = bytes(word[:n])
+    return [w + bytes(pad[:n - len(w)]), bytes(pad[:n - len(w)]) + w]
+
+
+for _k, _w in enumerate(source_literals()):
+    for _j, _ts in enumerate(_fit(_w, 6, bytes(TS))):
+        BEAST_ALPHA["D%dt%d" % (_k, _j)] = B.beast_frame(0x33, list(_ts), 0x80, LONG)
+        BEAST_ALPHA["D%ds%d" % (_k, _j)] = B.beast_frame(0x32, list(_ts), _w[0], SHORT)
+    BEAST_ALPHA["D%dp" % _k] = B.beast_frame(0x33, TS, _w[-1], LONG[:1] + (_w + LONG[1:])[:13])
 BEAST_CORE = ["L", "Lts0", "Lts5", "Lsig", "Lm0", "Lm13", "Lmm", "S", "Sm6", "AC", "ST", "ACe0", "ACe1", "STe", "Xl", "Lsig0"]
 BEAST_TERM = [0x1A, 0x33]
 
@@ -82,6 +130,10 @@ SKY_ALPHA = {
 for _df in range(32):
     # Skysense carries 14 payload bytes; formats 16-31 (first bit set) are long, 0-15 short
     SKY_ALPHA["F%02d" % _df] = B.skysense_frame(bytes([(_df << 3) | 3]) + LONG2[1:], [0x80, 1, 2, 3, 4, _df], [1, 2, _df])
+for _k, _w in enumerate(source_literals()):
+    for _j, _ts in enumerate(_fit(_w, 6, bytes([0x80, 1, 2, 3, 4, 5]))):
+        SKY_ALPHA["D%dt%d" % (_k, _j)] = B.skysense_frame(LONG, list(_ts), [1, 2, 3])
+    SKY_ALPHA["D%dp" % _k] = B.skysense_frame(LONG[:1] + (_w + LONG[1:])[:13], [0x80, 1, 2, 3, 4, 5], list((_w + b"\x01\x02\x03")[:3]))
 SKY_CORE = ["L", "S", "Lp", "Lq", "S0", "L0"]
 SKY_TERM = [0x24]
 
